@@ -76,7 +76,7 @@ CHECKS["C13"] = dict(cat="model_checking", ref="DESIGN.md 4/C13",
     note="Scripts of 1+retries attempts, retries 0..1 quick (0..2 thorough); scripted transport and clock are the environment; time.sleep no-op. RTU/binary: garbage and half frames assumed not checksum-valid under the uninterpreted CRC. Two listed known findings: exceptions escaping execute() on garbage (ASCII/binary), retry_on_empty alone never retries. peerclose.*: a connection the peer closed after k reply bytes (k symbolic) stays dead until the client closes it; a close after the header (k >= 8 on TCP) is the listed finding KF-client-keeps-dead-connection-after-truncated-reply. realtcp.*/realserial.*: the real ModbusTcpClient / ModbusSerialClient over a fake socket / port (garbage replies, stale bytes before a request). The known-finding carve for exceptions escaping execute() is by call site (framer.processIncomingPacket / decode_data). realudp.late-reply: the real ModbusUdpClient over fake datagram sockets.",
     technique=TECH)
 CHECKS["C15"] = dict(cat="other", ref="DESIGN.md 4/C15",
-    text="Thread schedules cannot be explored by this family of technique. The property is reduced to a lock-discipline premise that IS decided symbolically on the real code: under symbolic transport faults (incl. exceptions) every access to the shared transaction state (transport send/recv/connect/close, framer buffer, transaction-id counter, reply slots) happens while one and the same lock reachable from the client is owned, and no lock is owned after execute() returns or raises. Lock discipline + release on every exit implies serialisability of whole transactions (stated reduction); serial behaviour is C08/C13/C14.",
+    text="Thread schedules cannot be explored by this family of technique. The property is reduced to a lock-discipline premise that IS decided symbolically on the real code: under symbolic transport faults (incl. exceptions) every access to the shared transaction state (transport send/recv/connect/close, framer buffer, transaction-id counter, reply slots) happens while one and the same lock reachable from the client is owned, all accesses of one execute() call lie in ONE critical section of that lock (a section-counting proxy around the lock: not released and re-taken between two accesses, e.g. around the retry back-off), and no lock is owned after execute() returns or raises. Lock discipline + release on every exit implies serialisability of whole transactions (stated reduction); serial behaviour is C08/C13/C14.",
     note="Not an exploration of interleavings: a race in code that bypasses the monitored accesses would be missed. If a reduction is not accepted as deciding a schedule property, C15 is not applicable to this technique family for that reason. Trusts CPython's RLock. Calls enter through BaseModbusClient.execute from a symbolic client.state; the connect() that method makes before the lock is the listed finding KF-connect-outside-transaction-lock (prelock-connect.tcp) and is excluded from lock.* by call site.",
     technique="lock-discipline premise checked by bounded symbolic execution (CrossHair + z3) of the real transaction code; schedule quantifier by a stated reduction")
 CHECKS["C16"] = dict(cat="model_checking", ref="DESIGN.md 4/C16",
